@@ -1,4 +1,5 @@
 import FinamModel.TimeAdapters
+import FinamModel.Props.C11
 import FinamModel.Props.TrCommon
 import FinamModel.Props.TrTimeBase
 import FinamModel.Translated.NextTime__interpolate
@@ -266,5 +267,78 @@ theorem tr_TimeCachingAdapter__get_data_step (d : List (Int × Rat)) (pos : Rat)
         simp only [toE_cons] at this
         simp only [h1, h2, if_false, ok_bind, this]
         cases TA.stepInterp pos (⟨p.1, p.2⟩ :: toE r) t <;> simp [Except.map]
+
+/-! ### C11 on the regenerated code
+
+A time-caching adapter whose requests are answered by the *translated* `_get_data` of its kind (notifications append
+to the buffer, as `_source_updated` does). -/
+
+def codeGet (k : TA.Kind) (buf : List (Int × Rat)) (t : Int) : Except Err (Rat × List (Int × Rat)) :=
+  match k with
+  | .next => Tr.TimeCachingAdapter__get_data_next buf t
+  | .prev => Tr.TimeCachingAdapter__get_data_prev buf t
+  | .linear => Tr.TimeCachingAdapter__get_data_linear buf t
+  | .step pos => Tr.TimeCachingAdapter__get_data_step buf pos t
+
+def codeStepTA (k : TA.Kind) (buf : List (Int × Rat)) : TA.Ev → List (Int × Rat) × Option (Except Err Rat)
+  | .push t v => (buf ++ [(t, v)], none)
+  | .pull t =>
+    match codeGet k buf t with
+    | .ok (v, buf') => (buf', some (.ok v))
+    | .error e => (buf, some (.error e))
+
+def codeRunTA (k : TA.Kind) : List (Int × Rat) → List TA.Ev → List (Option (Except Err Rat))
+  | _, [] => []
+  | buf, ev :: evs => (codeStepTA k buf ev).2 :: codeRunTA k (codeStepTA k buf ev).1 evs
+
+theorem code_get_eq (k : TA.Kind) (buf : List (Int × Rat)) (t : Int) (hs : Sorted (toE buf)) :
+    codeGet k buf t = (TA.getData k (toE buf) t).map (fun v => (v, ofE (TA.clear (toE buf) t))) := by
+  cases k with
+  | next => exact tr_TimeCachingAdapter__get_data_next buf t
+  | prev => exact tr_TimeCachingAdapter__get_data_prev buf t
+  | linear => exact tr_TimeCachingAdapter__get_data_linear buf t hs
+  | step pos => exact tr_TimeCachingAdapter__get_data_step buf pos t hs
+
+theorem code_step_sim_ta (k : TA.Kind) (buf : List (Int × Rat)) (s : TA.AState) (hb : toE buf = s.buf) (hi : TA.Inv s)
+    (ev : TA.Ev) :
+    (codeStepTA k buf ev).2 = (TA.stepImpl k s ev).2 ∧ toE (codeStepTA k buf ev).1 = (TA.stepImpl k s ev).1.buf := by
+  cases ev with
+  | push t v =>
+    refine ⟨rfl, ?_⟩
+    show toE (buf ++ [(t, v)]) = s.buf ++ [⟨t, v⟩]
+    simp [toE, ← hb]
+  | pull t =>
+    have hs : Sorted (toE buf) := by
+      obtain ⟨p, hp⟩ := hi.suffix
+      rw [hb]; exact sorted_suffix' p s.buf (hp ▸ hi.sorted)
+    simp only [codeStepTA, code_get_eq k buf t hs, TA.stepImpl, hb]
+    cases TA.getData k s.buf t with
+    | error e => exact ⟨rfl, hb⟩
+    | ok v => exact ⟨rfl, by simp [Except.map, toE_ofE]⟩
+
+theorem code_run_sim_ta (k : TA.Kind) : ∀ (evs : List TA.Ev) (buf : List (Int × Rat)) (s : TA.AState),
+    toE buf = s.buf → TA.Inv s → TA.preAllB k s evs = true →
+    codeRunTA k buf evs = (TA.runBoth k s evs).map (·.1) := by
+  intro evs
+  induction evs with
+  | nil => intro buf s _ _ _; rfl
+  | cons ev evs ih =>
+    intro buf s hb hi hp
+    simp only [TA.preAllB, Bool.and_eq_true] at hp
+    obtain ⟨h1, h2⟩ := code_step_sim_ta k buf s hb hi ev
+    simp only [codeRunTA, TA.runBoth, List.map_cons, h1]
+    rw [ih _ _ h2 (TA.inv_step k s hi ev (TA.pre_of_preB s ev hp.1)) hp.2]
+
+/-- **C11 on the code.**  For every interleaving of publications (strictly increasing times, arbitrary values) and
+    requests (non-decreasing), every answer of the *translated* `_get_data` of `NextTime` / `PreviousTime` /
+    `LinearTime` / `StepTime` — value or error class — is the answer of the mathematical definition evaluated on the
+    full publication history, although the translated `_clear_cached_data` discards buffer entries on every served
+    request. -/
+theorem code_adapter_refines_spec (k : TA.Kind) (evs : List TA.Ev) (h : TA.preAllB k TA.init evs = true) :
+    codeRunTA k [] evs = (TA.runBoth k TA.init evs).map (·.2) := by
+  rw [code_run_sim_ta k evs [] TA.init rfl init_inv h]
+  apply List.map_congr_left
+  intro p hp
+  exact adapter_refines_spec k evs h p hp
 
 end Finam.Props.C11
